@@ -23,9 +23,9 @@ EXPLANATION = (
     "is only read / sought / handed to read-only openers; never written, truncated or closed."
 )
 NOT_DECIDED = ["determinism of third-party parsers and of their object reprs (e.g. values defaulted to the wall clock inside openpyxl, memory addresses in pypdf reprs) — outside the analysed source",
-               "Path.resolve() / mimetypes host dependence of file metadata"]
+               "Path.resolve() host dependence of file metadata for real paths (archive members are labelled lexically, C09-LABEL)"]
 TRUSTED = ["iteration order of a set of str depends on PYTHONHASHSEED; dict preserves insertion order", "zipfile.ZipFile(..., 'r'), olefile.OleFileIO, PdfReader, tarfile.open(mode='r:*'), MsOxMessage, load_workbook do not modify the stream they read"]
-FLOORS = {"C06-STREAM": 1, "C06-ORDER": 5, "C06-NONDET": 3, "C06-PURE": 150, "C06-INPUT": 60}
+FLOORS = {"C06-HOST": 2, "C06-STREAM": 1, "C06-ORDER": 5, "C06-NONDET": 3, "C06-PURE": 150, "C06-INPUT": 60}
 
 ORDER_FREE_CALLS = {"sorted", "len", "any", "all", "min", "max", "sum", "set", "frozenset", "bool", "isinstance"}
 
@@ -665,4 +665,49 @@ def rule_default(ctx: Ctx) -> RuleReport:
     return rep
 
 
-RULES = [rule_order, rule_nondet, rule_pure, rule_input, rule_stream, rule_default]
+# ----------------------------------------------------------------------------------------------- HOST
+HOST_DATABASES = {
+    "mimetypes.guess_type": "the MIME database of the host (/etc/mime.types, the Windows registry)",
+    "mimetypes.guess_extension": "the MIME database of the host",
+    "mimetypes.guess_all_extensions": "the MIME database of the host",
+    "mimetypes.types_map": "the MIME database of the host",
+    "mimetypes.read_mime_types": "a MIME file of the host",
+    "locale.getlocale": "the locale of the process", "locale.getpreferredencoding": "the locale of the process", "locale.getdefaultlocale": "the locale of the process",
+    "platform.system": "the platform", "platform.node": "the host name", "socket.gethostname": "the host name", "getpass.getuser": "the user", "os.getcwd": "the working directory", "Path.cwd": "the working directory",
+    "time.tzname": "the time zone of the host", "time.localtime": "the time zone of the host", "datetime.datetime.now": "the clock", "os.getenv": "the environment",
+}
+
+
+def rule_host(ctx: Ctx) -> RuleReport:
+    """A result is a function of (bytes, path): nothing that is looked up in a database of the host may decide a routing or a field."""
+    rep = RuleReport("C06-HOST", "no value looked up in a host-wide database (MIME types of the host, locale, platform, environment) decides a route or reaches a result; "
+                     "private tables (mimetypes.MimeTypes() instances, dictionaries of the library) are used instead")
+    n = 0
+    for fi in ctx.p.all_functions():
+        if fi.module.rel.startswith("sharepoint2text/sharepoint_io/") or fi.module.rel == "sharepoint2text/cli.py" or "/tests/" in fi.module.rel:
+            continue
+        for c in calls_in(fi):
+            d = dotted(c.func) or ""
+            if d not in HOST_DATABASES:
+                continue
+            n += 1
+            rep.unit(fi.key)
+            use = _use_of(fi.node, c)
+            if use in ("log", "timing"):
+                rep.ok({"site": f"{fi.qual}: {short(c, 40)}", "use": use})
+            else:
+                rep.fail(Finding("C06-HOST", fi.module.rel, fi.qual, f"{d} decides a result", f"`{short(c, 50)}` consults {HOST_DATABASES[d]}: the same (bytes, path) gives a different route or field on a host whose table differs (an entry 'application/pdf prn' in /etc/mime.types makes 'report.prn' a PDF on that host only)", line=c.lineno))
+    # positive: the private tables in use
+    for m in ctx.p.modules.values():
+        if "/tests/" in m.rel:
+            continue
+        for name, node in m.assigns.items():
+            if isinstance(node, ast.Call) and (dotted(node.func) or "") == "mimetypes.MimeTypes":
+                if node.args or node.keywords:
+                    rep.fail(Finding("C06-HOST", m.rel, name, "MimeTypes built from host files", f"`{short(node, 60)}` loads MIME files of the host into the table", line=node.lineno))
+                else:
+                    rep.ok({"private_table": f"{m.rel}::{name}", "built_in_types_only": True})
+    return rep
+
+
+RULES = [rule_order, rule_nondet, rule_pure, rule_input, rule_stream, rule_default, rule_host]
